@@ -36,6 +36,10 @@ def correspondence(ctx):
 RANKQ = {"allow": 0, "ask": 1, "deny": 2}
 
 
+# detour directories (DIR/..): some are spelled with the characters patterns are made of
+DETOURS = ["zz", "zz", "**", "x**y", "*", "a.b", "[x]"]
+
+
 def respell(r, canonical: str, cwd: str, home: str) -> str:
     """a different spelling of the absolute path `canonical`"""
     k = r.random()
@@ -60,10 +64,11 @@ def respell(r, canonical: str, cwd: str, home: str) -> str:
         if j < 0.3:
             parts.insert(i + (1 if parts[0] in ("", "~") and i == 0 else 0), ".") if i > 0 or parts[0] not in ("", "~") else parts.insert(1, ".")
         elif j < 0.6:
+            det = r.pick(DETOURS)
             if i > 0 or parts[0] not in ("", "~"):
-                parts[i:i] = ["zz", ".."]
+                parts[i:i] = [det, ".."]
             else:
-                parts[1:1] = ["zz", ".."]
+                parts[1:1] = [det, ".."]
         elif j < 0.8 and i > 0:
             parts[i:i] = [""]
         s = "/".join(parts)
@@ -88,6 +93,9 @@ def search(ctx):
         work = os.path.join(root, "work")
         for d in ("home/out", "home/zz", "work/ok/deep/er", "work/other", "work/zz", "work/ok/zz", "work/sub/zz", "work/ok/deep/zz", "zz", "home/out/zz"):
             os.makedirs(os.path.join(root, d), exist_ok=True)
+        for base in ("", "home", "home/out", "work", "work/ok", "work/sub", "work/ok/deep", "work/ok/deep/er", "work/other"):
+            for det in set(DETOURS):
+                os.makedirs(os.path.join(root, base, det), exist_ok=True)
         os.symlink(os.path.join(work, "other"), os.path.join(work, "ok", "escape"))  # a symlink leading out of ok/
         os.symlink(os.path.join(work, "ok"), os.path.join(work, "oklink"))
         os.environ["HOME"] = home
@@ -111,8 +119,12 @@ def search(ctx):
             for s in spellings:
                 real = os.path.realpath(os.path.expanduser(s) if s.startswith("~") else os.path.join(cwd, s))
                 m = C.match_redirect(s, cfg, Path(cwd))
-                d = analyze("echo x > " + s, cfg, Path(cwd))
+                # a spelling with pattern characters is given to the shell in double quotes (bash would expand it otherwise; ~ is
+                # left outside the quotes)
+                sw_ = s if not any(ch in s for ch in "*?[") else ('~/"' + s[2:] + '"' if s.startswith("~/") else '"' + s + '"')
+                d = analyze("echo x > " + sw_, cfg, Path(cwd))
                 stats["evaluations"] += 2
+                stats["glob_char_spellings"] += sw_ != s
                 results.append((s, real, None if m is None else (m.decision, m.pattern), d.action))
             base_real = results[0][1]
             for s, real, m, act in results:
